@@ -177,7 +177,7 @@ Section Exec.
           | Some key =>
             match blookup key (s_blobs s) with
             | Some v => (inr (add_local en v), s)
-            | None => (inr (add_local en (RVal VNone)), s)
+            | None => (inl (DdsErr "NONE"), s)      (* fix F40: a committed path whose blob is not in the store *)
             end
           end
         end
